@@ -19,7 +19,9 @@ import (
 	"github.com/olric-data/olric/internal/discovery"
 )
 
-func (r *RoutingTable) processLeftOverDataReports(reports map[discovery.Member]*leftOverDataReport) {
+// processLeftOverDataReports returns true if a member has been added to an owners list.
+func (r *RoutingTable) processLeftOverDataReports(reports map[discovery.Member]*leftOverDataReport) bool {
+	var changed bool
 	check := func(member discovery.Member, owners []discovery.Member) bool {
 		for _, owner := range owners {
 			if member.CompareByID(owner) {
@@ -42,6 +44,7 @@ func (r *RoutingTable) processLeftOverDataReports(reports map[discovery.Member]*
 		// Prepend
 		newOwners = append([]discovery.Member{member}, newOwners...)
 		part.SetOwners(newOwners)
+		changed = true
 		r.log.V(2).Printf("[INFO] %s still have some data for PartID (kind: %s): %d", member, part.Kind(), partID)
 	}
 
@@ -57,4 +60,5 @@ func (r *RoutingTable) processLeftOverDataReports(reports map[discovery.Member]*
 			ensureOwnership(member, partID, part)
 		}
 	}
+	return changed
 }
